@@ -155,6 +155,10 @@ func DumpIDL(ast *parser.Thrift) (string, error) {
 					required = "required "
 				}
 				sb.writeString(fmt.Sprintf("%d: %s%s %s", ag.ID, required, typeName(ag.Type), ag.Name))
+				if ag.Default != nil {
+					sb.writeString(" = ")
+					printConstTypedValue(&sb, ag.Default.TypedValue)
+				}
 				printAnnotation(&sb, ag.Annotations)
 				if i != len(f.Arguments)-1 {
 					sb.writeString(", ")
